@@ -305,6 +305,16 @@ def _check_reduce(case):
     if fn in ("histogram", "histogram3"):
         calls = [("np.histogram(rla)", lambda x: np.histogram(x))] if fn == "histogram" else \
                 [("np.histogram(rla, bins=3)", lambda x: np.histogram(x, bins=3)), ("np.histogram(rla, 3)", lambda x: np.histogram(x, 3))]
+        if fn == "histogram3":
+            # an explicit range / explicit bin edges that do NOT cover the data: numpy ignores the values outside, so must the run-length version
+            try:
+                lo, hi = float(a.min()), float(a.max())
+            except Exception:
+                lo, hi = 0.0, 0.0
+            if np.isfinite(lo) and np.isfinite(hi) and hi - lo >= 2:
+                rng, edges = (lo + 0.5, hi - 0.5), [lo + 0.5, lo + (hi - lo) / 2, hi - 0.5]
+                calls += [(f"np.histogram(rla, 3, {rng})", lambda x: np.histogram(x, 3, rng)),
+                          (f"np.histogram(rla, bins={edges})", lambda x: np.histogram(x, bins=edges))]
     elif fn == "max":
         calls = [("rla.max()", lambda x: x.max())]
     else:
